@@ -8,7 +8,10 @@ let str_after p s = String.sub s (String.length p) (String.length s - String.len
 (* the test application, as in harness/src/s_conn.rs *)
 let path_of (r : M.request) : string =
   match M.uri_path r.M.q_target with M.Ok p -> string_of_bytes p | _ -> ""
-let describe (r : M.request) (body : M.byte list) : M.byte list =
+let rec describe (r : M.request) (body : M.byte list) : M.byte list =
+  (* /empty0 answers with an empty body (ok0 / send0) *)
+  if starts "/empty0" (path_of r) then [] else describe_full r body
+and describe_full (r : M.request) (body : M.byte list) : M.byte list =
   let q = match M.uri_query r.M.q_target with M.Ok (Some q) -> string_of_bytes q | _ -> "-" in
   bytes_of_string (Printf.sprintf "%s %s %s %s" (string_of_bytes (M.method_str r.M.q_meth)) (path_of r) q (hex_of_bytes body))
 let behaviour_of (r : M.request) : M.behaviour =
@@ -24,7 +27,7 @@ let behaviour_of (r : M.request) : M.behaviour =
   else if starts "/err" p then M.BErr
   else if starts "/close" p then M.BClose
   else if starts "/reader/" p then M.BReader (n_of_int (num (str_after "/reader/" p)))
-  else if starts "/none" p then M.BNone (n_of_int 200)
+  else if starts "/none" p || starts "/empty0" p then M.BNone (n_of_int 200)
   else M.BNone (n_of_int 404)
 let hook_of (r : M.request) : M.hook_action =
   match M.get r.M.q_hdrs (bytes_of_string "x-hook") with
